@@ -42,6 +42,10 @@ EVENTS = {
     "sys_exit_list": ("sys.exit([])", 1),
     "caught_exit0_then_exit3": ("\n    try:\n        sys.exit(0)\n    except SystemExit:\n        pass\n    sys.exit(3)", 3),
     "caught_exit3_then_exit0": ("\n    try:\n        sys.exit(3)\n    except SystemExit:\n        pass\n    sys.exit(0)", 0),
+    "caught_exit0_then_falloff": ("\n    try:\n        sys.exit(0)\n    except SystemExit:\n        pass", 0),
+    "caught_exit3_then_falloff": ("\n    try:\n        sys.exit(3)\n    except SystemExit:\n        pass", 0),
+    "caught_exit0_then_exception": ("\n    try:\n        sys.exit(0)\n    except SystemExit:\n        pass\n    raise RuntimeError('x')", 1),
+    "caught_exit0_then_keyboardinterrupt": ("\n    try:\n        sys.exit()\n    except SystemExit:\n        pass\n    raise KeyboardInterrupt()", -2),
     "raise_systemexit_0": ("raise SystemExit(0)", 0),
     "raise_systemexit_none": ("raise SystemExit()", 0),
     "raise_systemexit_2": ("raise SystemExit(2)", 2),
